@@ -1367,6 +1367,10 @@ class PlainQuantity(Generic[MagnitudeT], PrettyIPython, SharedRegistryObject):
         if self._units == other._units:
             return eq(self._magnitude, other._magnitude, False)
 
+        # an active context may convert between dimensions; it does not make them equal
+        if self.dimensionality != other.dimensionality:
+            return bool_result(False)
+
         try:
             return eq(
                 self._convert_magnitude_not_inplace(other._units),
